@@ -398,6 +398,8 @@ theorem step_booked (s : State) (e : Event) (h : Booked s) (ha : EventArrivalOK 
   | retry ch ok => exact (seq_retryOpen s ch ok).booked h
   | settle r => exact (seq_settle s r).booked h
   | «continue» ex => exact (seq_continueGame s ex).booked h
+  | contReset => exact (seq_continueGame s true).booked h
+  | tick ex => exact (seq_nextMove s ex).booked h
 
 /-- **the seat bookkeeping holds in every state of every history** whose arrivals were given seats the table showed free -/
 theorem run_booked (s : State) (evs : List Event) (h : Booked s) (ha : ArrivalsOK s evs) : Booked (run s evs) := by
